@@ -56,7 +56,11 @@ func calculateReferencePointDiffs(
 	for _, c := range *criteria {
 		difference := a.CriterionValue(&c) - r.CriterionValue(&c)
 		if scaleRatio, ok := scaleRatios[c.Id]; ok {
-			scaledDif := difference * scaleRatio.Scale
+			// difference / range, not difference * (1 / range): the difference between the ends of the range has to be 1
+			scaledDif := 0.0
+			if scaleRatio.Scale != 0 {
+				scaledDif = difference / scaleRatio.ValuesRange.Diff()
+			}
 			var value float64
 			if scaledDif > 0 {
 				value = gain.fun.Evaluate(gain.params, scaledDif)
